@@ -19,8 +19,11 @@ Whitelist (see `_Tr`):
               (statements after an `if` are duplicated into both branches, so early `return`s and
               branch-wise assignments need no join); `while c: <assignments>` with a per-kernel fuel
               (an auxiliary structurally recursive def; when the fuel runs out the current values are
-              returned); `return e` / `return e1, e2`; `raise` (only where the kernel declares an
-              error alternative); `assert` of a test that is constant-true on the kernel's domain;
+              returned); `for x in <mapped list>:` either as the model's `for_each` combinator (ret_mode 'except': the
+              body raises or falls off, no `return`) or as a left fold whose state is the outer names the body
+              assigns (`for c in l: if t(c): n += 1`); `a, b = divmod(x, y)`; `return e` / `return e1, e2`;
+              `raise` (only where the kernel declares an error alternative: ret_mode 'option' = `none`, ret_mode
+              'except' = the Lean error term the kernel's `raises` gives for that statement, chosen by its text); `assert` of a test that is constant-true on the kernel's domain;
               `pass`; calls listed as no-ops (`warnings.warn`); calls listed as *effects*: the
               argument is the result (`self._buffer.seek(x)`), or a mapped state expression is updated
               (`self._buffer.seek(n, 1)` moves what `self._buffer.tell()` denotes).
@@ -38,7 +41,14 @@ Whitelist (see `_Tr`):
               `x*(180/pi)`), `np.interp(x, [..], [..])` (the model's `interp`); `math.ceil/np.ceil`,
               `math.trunc`, `int()` of an integer, `float()`, `Fraction(<int>)`; array parameters
               combined with scalars (`a * s`, `s + a`, `a > s`), `np.array(a)`, `np.array([])`,
-              `np.arange(n)`, `np.any(a > s)`; constructor calls listed per kernel (`slice(a, b)` ->
+              `np.arange(n)`, `np.any(a > s)`; `len()` of a mapped list; `any(t for x in l)` / `all(..)` over a mapped
+              list (`List.any/all`, one `for` clause, no filter); `a is b` / `a is not b` on identity tokens (kind `id`);
+              `x is None` on a first-class Option value (`isNone`/`isSome`), `None` where the other branch fixes the Option
+              type, `opt == number`; `==`/`!=` on the enum-like kinds the kernel lists (`eq_kinds`); truth value of a
+              mapped list (`not l` = empty); `Fraction(a, b)` of integers; with `strings=True` f-strings,
+              `"..".format(..)` and `+` on strings (`List Char`: `{x}` = `decStr`, `{x:0Nd}` = `decPad N`, `{x:0NX}` =
+              `hexPad N`, through Model/C08Digits.lean; anything else in a field is refused); calls of other translated
+              kernels listed per kernel (`calls`); constructor calls listed per kernel (`slice(a, b)` ->
               pair); calls of same-module helper functions listed per kernel (inlined: the helper must
               be `asserts; return <expr>`).
   selection   the whole function; or `targets`: "the assignments to names X, Y, Z" (+ the branch
@@ -128,6 +138,7 @@ class KernelSpec:
     effects          {source text of a called function: 'result' | dict(state=<mapped source text>,
                      forms={(nargs,) or (nargs, <int literal 2nd arg>): 'arg' | 'old+arg' | ('expr+arg', lean, kind)})}
     ctors            {(name, arity) or name: template}; template = str with {0},{1}.. or list of keyword names
+                     or ("kw", name): the value of that (single) keyword argument
     inline           {called name: qualname of a function of the same file} (expression helpers)
     ret_mode         'plain' | 'option' (values are `some v`, `raise` is `none`)
     ret_wrap         {kind: template} applied to returned values (e.g. {'rat': '(Ext.fin {})'})
@@ -139,17 +150,31 @@ class KernelSpec:
                      optionals); needed for `range` and for functions that work by assignment
     fuel             Lean term (or list of terms, one per `while`, may mention locals) bounding loops
     float_literals   'decimal' (a literal is the decimal written) | 'binary64' (its exact double value)
+    strings          True: f-strings and `"...".format(...)` are values (`List Char` through the Digits model:
+                     `{x}` of a natural = `decStr`, `{x:0Nd}` = `decPad N`, `{x:0NX}` = `hexPad N`); otherwise they are
+                     message text (only usable in warnings/exceptions)
+    calls            {called name: dict(lean=<Lean function: another translated kernel>, args=[kinds], ret=kind)}
+    eq_kinds         opaque kinds on which `==` / `!=` is Lean's decidable equality (enum-like values)
+    raises           ret_mode 'except': [(substring of the ast-normalised `raise`/`assert` statement, Lean error term)];
+                     exactly one entry must match each `raise` (and each `assert` that is not constant-true)
+    local_kinds      {local name: numeric kind}: a literal assigned to that name is a typed `let` (e.g. a counter that is
+                     a natural number: an operation that could make it negative then no longer type-checks)
+    for_each         ret_mode 'except': Lean name of the model's `for x in l: f(x)` combinator
+                     (`List α → (α → Except ε Unit) → Except ε Unit`)
     """
 
     def __init__(self, file, qualname, lean_name, binders, ret, scalar="rat", names=None, exprs=None, optionals=(),
                  effects=None, ctors=None, inline=None, ret_mode="plain", ret_wrap=None, select=None, outputs=None,
-                 fuel=None, float_literals="decimal", notes=""):
+                 fuel=None, float_literals="decimal", notes="", strings=False, calls=None, eq_kinds=(), raises=None,
+                 for_each=None, local_kinds=None):
         self.file, self.qualname, self.lean_name = file, qualname, lean_name
         self.binders, self.ret, self.scalar = binders, ret, scalar
         self.names, self.exprs, self.optionals = dict(names or {}), dict(exprs or {}), list(optionals)
         self.effects, self.ctors, self.inline = dict(effects or {}), dict(ctors or {}), dict(inline or {})
         self.ret_mode, self.ret_wrap, self.select, self.notes = ret_mode, dict(ret_wrap or {}), select, notes
         self.outputs, self.fuel, self.float_literals = outputs, fuel, float_literals
+        self.strings, self.calls, self.eq_kinds = bool(strings), dict(calls or {}), tuple(eq_kinds)
+        self.raises, self.for_each, self.local_kinds = list(raises or []), for_each, dict(local_kinds or {})
 
 
 NOOP_CALLS = {"warnings.warn"}
@@ -331,18 +356,24 @@ def find_statement(fn, prefix):
     return hits[0]
 
 
-def select_value_of(fn, prefix, arg_of=None):
+def select_value_of(fn, prefix, arg_of=None, arg_index=0):
     blk, i = find_statement(fn, prefix)
     s = blk[i]
     if arg_of is not None:
-        calls = [n for n in ast.walk(s) if isinstance(n, ast.Call) and ast.unparse(n.func) == arg_of and n.args]
+        # for a compound statement only its header is searched (the test of an `if`/`while`, the iterable of a `for`)
+        hdr = s.iter if isinstance(s, ast.For) else (s.test if isinstance(s, (ast.If, ast.While)) else s)
+        calls = [n for n in ast.walk(hdr) if isinstance(n, ast.Call) and ast.unparse(n.func) == arg_of and n.args]
         if len(calls) != 1:
             raise Refuse("value_of %r: %d calls of `%s` in the statement (need exactly 1)" % (prefix, len(calls), arg_of))
-        v = calls[0].args[0]
+        if calls[0].keywords or any(isinstance(a, ast.Starred) for a in calls[0].args) or len(calls[0].args) <= arg_index:
+            raise Refuse("value_of %r: the call of `%s` has no plain positional argument %d" % (prefix, arg_of, arg_index))
+        v = calls[0].args[arg_index]
     elif isinstance(s, (ast.Assign, ast.AugAssign, ast.Return)) and s.value is not None:
         v = s.value
     elif isinstance(s, (ast.If, ast.While)):
         v = ast.Call(func=ast.Name(id="bool", ctx=ast.Load()), args=[s.test], keywords=[])
+    elif isinstance(s, ast.For):
+        v = s.iter
     elif isinstance(s, ast.Expr) and isinstance(s.value, ast.Call) and len(s.value.args) >= 1:
         v = s.value.args[0]
     else:
@@ -400,6 +431,8 @@ class _Tr:
         self.aux = []  # auxiliary defs (while loops)
         self.nloops = 0
         self.outputs = spec.outputs
+        self.in_for = 0  # > 0 while translating the body of a `for` loop (no `return` there)
+        self.plain_ret = 0  # > 0 while translating a loop body whose value is the tuple of its state variables
 
     # ---- helpers
 
@@ -508,12 +541,14 @@ class _Tr:
             return "(%s = true)" % v.lean
         if v.kind in ("int", "nat"):
             return "(%s ≠ 0)" % v.lean  # Python truth value of an integer
-        self.bad(node, "truth value of a %s expression (only comparisons/booleans/integers are whitelisted)" % v.kind)
+        if v.kind.startswith("list:"):
+            return "(%s.isEmpty = false)" % v.lean  # Python truth value of a list
+        self.bad(node, "truth value of a %s expression (only comparisons/booleans/integers/lists are whitelisted)" % v.kind)
 
     def as_bool(self, v, node):
         if v.kind == "bool":
             return v.lean
-        if v.kind in ("prop", "int", "nat"):
+        if v.kind in ("prop", "int", "nat") or v.kind.startswith("list:"):
             return "(decide %s)" % self.as_prop(v, node)
         self.bad(node, "expected a boolean, got %s" % v.kind)
 
@@ -603,7 +638,11 @@ class _Tr:
             return _const(c)
         if isinstance(c, int):
             return _lit(c, False)
+        if c is None:
+            return Val("none", "none")  # only usable where the other side fixes the Option type
         if isinstance(c, str):
+            if self.spec.strings:
+                return Val(self.strlit(c, node), "str")
             return Val(None, "msg")  # message text: only usable in warnings / exceptions
         if isinstance(c, float):
             if c != c or c in (float("inf"), float("-inf")):
@@ -671,6 +710,8 @@ class _Tr:
             return self.vecmap(a, lambda x: self.binop(op, x, b, node))
         if b.kind == "vec":
             return self.vecmap(b, lambda x: self.binop(op, a, x, node))
+        if isinstance(op, ast.Add) and a.kind == "str" and b.kind == "str":
+            return self.concat([self.atom(a.lean), self.atom(b.lean)])  # string concatenation
         if isinstance(op, ast.Pow):
             if b.kind == "lit" and b.q == 2 and not b.isfloat:
                 if a.kind == "lit":
@@ -781,7 +822,7 @@ class _Tr:
             if v.kind not in ("bool", "prop"):
                 self.bad(node, "`and`/`or` returning a non-boolean operand")
             return v
-        if any(p.kind not in ("bool", "prop", "int", "nat") for p in parts):
+        if any(p.kind not in ("bool", "prop", "int", "nat") and not p.kind.startswith("list:") for p in parts):
             self.bad(node, "`and`/`or` on non-boolean operands")
         sym = " ∧ " if is_and else " ∨ "
         return Val("(" + sym.join(self.as_prop(p, node) for p in parts) + ")", "prop")
@@ -794,6 +835,18 @@ class _Tr:
         if isinstance(op, (ast.Eq, ast.NotEq)) and a.kind in ("bool", "prop") and b.kind in ("bool", "prop"):
             s = "(%s = %s)" % (self.as_bool(a, node), self.as_bool(b, node))
             return Val(s if isinstance(op, ast.Eq) else "(¬ %s)" % s, "prop")
+        if isinstance(op, (ast.Eq, ast.NotEq)):
+            s = None
+            if a.kind == b.kind and a.kind in self.spec.eq_kinds:
+                s = "(%s = %s)" % (a.lean, b.lean)  # enum-like values: Lean's decidable equality
+            else:
+                for x, y in ((a, b), (b, a)):
+                    # `opt == number`: None is not equal to any number
+                    if x.kind.startswith("option:") and x.kind[7:] in NUM and y.kind in NUM:
+                        s = "(%s = some %s)" % (x.lean, self.num(y, x.kind[7:], node))
+                        break
+            if s is not None:
+                return Val(s if isinstance(op, ast.Eq) else "(¬ %s)" % s, "prop")
         k = self.join(a, b, node, op="cmp")
         if k == "lit":
             r = {ast.Lt: a.q < b.q, ast.LtE: a.q <= b.q, ast.Gt: a.q > b.q, ast.GtE: a.q >= b.q, ast.Eq: a.q == b.q,
@@ -825,11 +878,23 @@ class _Tr:
         # `x is None` / `x is not None`
         if len(node.ops) == 1 and isinstance(node.ops[0], (ast.Is, ast.IsNot)):
             r = node.comparators[0]
+            pos = isinstance(node.ops[0], ast.Is)
             if not (isinstance(r, ast.Constant) and r.value is None):
-                self.bad(node, "`is` with anything but None")
+                # object identity of two values that carry identity tokens (kind `id`)
+                a, b = self.expr(node.left, env), self.expr(r, env)
+                if a.kind != "id" or b.kind != "id":
+                    self.bad(node, "`is` between values that are not both identity tokens (kinds %s / %s)" % (a.kind, b.kind))
+                s = "(%s = %s)" % (a.lean, b.lean)
+                return Val(s if pos else "(¬ %s)" % s, "prop")
             text = self.canon(node.left, env)
             if text not in self.opt:
-                self.bad(node, "`is None` test on `%s`, which is not a designated optional" % text)
+                v = self.lookup(text, node, env)
+                if v is None and isinstance(node.left, ast.Name) and node.left.id in env.names:
+                    v = self.e_Name(node.left, env)
+                if v is not None and v.kind.startswith("option:"):
+                    # a first-class Option value (e.g. an attribute of a loop variable)
+                    return Val("(%s.%s = true)" % (v.lean, "isNone" if pos else "isSome"), "prop")
+                self.bad(node, "`is None` test on `%s`, which is neither a designated optional nor an Option value" % text)
             st = env.none.get(text)
             if st is None:
                 self.bad(node, "internal: optional not case-split")
@@ -870,8 +935,11 @@ class _Tr:
             return k
         if a.kind in ("bool", "prop") and b.kind in ("bool", "prop"):
             return "bool"
-        if a.kind == b.kind and a.kind not in ("vec", "tuple"):
+        if a.kind == b.kind and a.kind not in ("vec", "tuple", "none"):
             return a.kind
+        for x, y in ((a, b), (b, a)):
+            if x.kind == "none" and y.kind.startswith("option:"):
+                return y.kind
         self.bad(node, "branches of different kinds (%s / %s)" % (a.kind, b.kind))
 
     def at(self, v, k, node):
@@ -921,9 +989,17 @@ class _Tr:
         fn = ast.unparse(node.func)
         if fn in self.spec.inline:
             return self.inline_call(node, env, self.spec.inline[fn])
+        if isinstance(node.func, ast.Attribute) and node.func.attr == "format" and self.spec.strings \
+                and isinstance(node.func.value, ast.Constant) and isinstance(node.func.value.value, str):
+            return self.format_call(node, env)
         if fn == "dict" or (isinstance(node.func, ast.Attribute) and node.func.attr == "format"
                             and isinstance(node.func.value, ast.Constant) and isinstance(node.func.value.value, str)):
             return Val(None, "msg")  # message arguments (dict(...), "...".format(...)): not part of the value
+        if fn in ("any", "all") and len(node.args) == 1 and not node.keywords \
+                and isinstance(node.args[0], (ast.GeneratorExp, ast.ListComp)):
+            return self.any_all(fn, node.args[0], node, env)
+        if fn in self.spec.calls:
+            return self.kernel_call(fn, node, env)
         if node.keywords and fn not in self.spec.ctors:
             self.bad(node, "keyword arguments")
         n = len(node.args)
@@ -931,6 +1007,12 @@ class _Tr:
         key = (fn, n) if (fn, n) in self.spec.ctors else (fn if fn in self.spec.ctors else None)
         if key is not None:
             t = self.spec.ctors[key]
+            if isinstance(t, tuple) and len(t) == 2 and t[0] == "kw":
+                # a copy-with-one-field-replaced call (`evolve(state, field=e)`): the kernel's value is that field
+                kws = [k for k in node.keywords if k.arg == t[1]]
+                if len(kws) != 1 or len(node.keywords) != 1:
+                    self.bad(node, "`%s` called with other than the single keyword %s" % (fn, t[1]))
+                return self.expr(kws[0].value, env)
             if isinstance(t, list):
                 if node.args or sorted(k.arg for k in node.keywords) != sorted(t):
                     self.bad(node, "constructor `%s` called with other than the keywords %s" % (fn, t))
@@ -1049,6 +1131,23 @@ class _Tr:
             if a.kind in ("rat", "alpha"):
                 return a
             self.bad(node, "float() of a %s value" % a.kind)
+        if fn == "len" and n == 1:
+            a = args[0]
+            if a.kind.startswith("list:") or a.kind == "str":
+                return Val("%s.length" % self.atom(a.lean), "nat")
+            if a.kind == "vec":
+                return Val("%s.length" % self.atom(a.src), "nat")
+            self.bad(node, "len() of a %s value" % a.kind)
+        if fn in ("Fraction", "fractions.Fraction") and n == 2:
+            # Fraction(a, b) of integers: the exact quotient (b = 0 raises in Python; `x / 0 = 0` here, as for `/`)
+            a, b = args
+            if not all(v.kind in ("int", "nat") or (v.kind == "lit" and not v.isfloat and v.q.denominator == 1) for v in args):
+                self.bad(node, "Fraction(a, b) of non-integers")
+            if a.kind == "lit" and b.kind == "lit":
+                if b.q == 0:
+                    self.bad(node, "Fraction(a, 0)")
+                return _lit(a.q / b.q, False)
+            return Val("(%s / %s)" % (self.num(a, "rat", node), self.num(b, "rat", node)), "rat")
         if fn in ("Fraction", "fractions.Fraction") and n == 1:
             a = args[0]
             if a.kind == "lit" and not a.isfloat:
@@ -1075,18 +1174,176 @@ class _Tr:
     def e_List(self, node, env):
         self.bad(node, "list display")
 
+    # ---- lists, identity, calls of other kernels
+
+    @staticmethod
+    def atom(lean):
+        """parenthesise a Lean term unless it is an identifier / projection path or already bracketed"""
+        if re.fullmatch(r"[A-Za-z_][\w.']*", lean) or (lean.startswith("(") and lean.endswith(")")):
+            return lean
+        return "(%s)" % lean
+
+    def bind_elem(self, target, kind, env, node):
+        """child environment in which the loop/comprehension variable `target` is a Lean-bound element of kind `kind`"""
+        if not isinstance(target, ast.Name):
+            self.bad(node, "loop target other than a single name")
+        if kind in ("vec", "tuple", "lit", "msg", "none") or kind.startswith("list:list:"):
+            self.bad(node, "iteration over elements of kind %s" % kind)
+        e = env.child()
+        e.names[target.id] = Val(mangle(target.id), kind)
+        e.aliases.pop(target.id, None)
+        return e, mangle(target.id)
+
+    def any_all(self, fn, comp, node, env):
+        """`any(<test> for x in <list>)` / `all(...)`: `List.any` / `List.all` (the test is pure, so evaluating it on
+        every element instead of stopping at the first hit gives the same value)"""
+        if len(comp.generators) != 1:
+            self.bad(node, "%s() over more than one `for` clause" % fn)
+        g = comp.generators[0]
+        if g.ifs or g.is_async:
+            self.bad(node, "%s() over a filtered / async comprehension" % fn)
+        it = self.expr(g.iter, env)
+        if not it.kind.startswith("list:"):
+            self.bad(node, "%s() over a %s value (only mapped lists)" % (fn, it.kind))
+        benv, var = self.bind_elem(g.target, it.kind[5:], env, node)
+        t = self.truth(self.expr(comp.elt, benv), node)
+        return Val("(%s.%s (fun %s => %s))" % (self.atom(it.lean), fn, var, self.as_bool(t, node)), "bool")
+
+    def kernel_call(self, fn, node, env):
+        """call of a function that is itself a translated kernel (listed in `calls`)"""
+        c = self.spec.calls[fn]
+        if node.keywords or any(isinstance(a, ast.Starred) for a in node.args) or len(node.args) != len(c["args"]):
+            self.bad(node, "call of the kernel `%s` with other than its %d positional arguments" % (fn, len(c["args"])))
+        out = []
+        for a, want in zip(node.args, c["args"]):
+            v = self.expr(a, env)
+            if want in NUM:
+                out.append(self.num(v, want, node))
+            elif v.kind == want:
+                out.append(self.atom(self.value(v, node)))
+            else:
+                self.bad(node, "argument of kind %s where the kernel `%s` takes %s" % (v.kind, fn, want))
+        return Val("(%s %s)" % (c["lean"], " ".join(out)), c["ret"])
+
+    # ---- strings (through the Digits model)
+
+    def strlit(self, text, node):
+        if not all(32 <= ord(ch) < 127 and ch not in '"\\' for ch in text):
+            self.bad(node, "string literal with characters outside printable ASCII (or a quote/backslash)")
+        if len(text) == 1 and text != "'":
+            return "['%s']" % text  # (a one-character literal as a list: the models write `c :: _`)
+        return '"%s".toList' % text
+
+    def fmt_value(self, v, spec, conv, node):
+        """one replacement field: value `v` formatted with the format spec `spec` (a constant string)"""
+        if conv not in (None, -1):
+            self.bad(node, "conversion (!r/!s/!a) in a format field")
+        D = "Earverif.Digits."
+        if spec == "":
+            if v.kind == "str":
+                return self.atom(v.lean)
+            if v.kind == "nat":
+                return "(%sdecStr %s)" % (D, self.atom(v.lean))
+            self.bad(node, "format field of kind %s without a format spec (only strings and naturals)" % v.kind)
+        m = re.fullmatch(r"0(\d+)([dX])", spec)
+        if not m:
+            self.bad(node, "format spec %r (only 0<width>d and 0<width>X are whitelisted)" % spec)
+        if v.kind == "lit" and not v.isfloat and v.q.denominator == 1 and v.q >= 0:
+            v = Val(self.num(v, "nat", node), "nat")
+        if v.kind != "nat":
+            self.bad(node, "format spec %r applied to a %s value (declare it natural: a sign would be printed)" % (spec, v.kind))
+        return "(%s%s %d %s)" % (D, "decPad" if m.group(2) == "d" else "hexPad", int(m.group(1)), self.atom(v.lean))
+
+    def concat(self, parts):
+        parts = [p for p in parts if p is not None]
+        if not parts:
+            return Val('"".toList', "str")
+        return Val("(" + " ++ ".join(parts) + ")", "str")
+
+    def e_JoinedStr(self, node, env):
+        if not self.spec.strings:
+            return Val(None, "msg")  # message text
+        parts = []
+        for v in node.values:
+            if isinstance(v, ast.Constant) and isinstance(v.value, str):
+                parts.append(self.strlit(v.value, node) if v.value else None)
+            elif isinstance(v, ast.FormattedValue):
+                spec = ""
+                if v.format_spec is not None:
+                    fs = v.format_spec
+                    if not (isinstance(fs, ast.JoinedStr) and all(isinstance(x, ast.Constant) for x in fs.values)):
+                        self.bad(node, "computed format spec")
+                    spec = "".join(x.value for x in fs.values)
+                parts.append(self.fmt_value(self.expr(v.value, env), spec, v.conversion, node))
+            else:
+                self.bad(node, "f-string part of type %s" % type(v).__name__)
+        return self.concat(parts)
+
+    def format_call(self, node, env):
+        """`"...{name:spec}...".format(name=e, ...)`; a field name may continue with attribute access (`{t.value}`)"""
+        import string
+
+        fmt = node.func.value.value
+        if any(isinstance(a, ast.Starred) for a in node.args) or any(k.arg is None for k in node.keywords):
+            self.bad(node, "format() with * / ** arguments")
+        kw = {k.arg: k.value for k in node.keywords}
+        parts, auto, manual = [], 0, False
+        try:
+            fields = list(string.Formatter().parse(fmt))
+        except ValueError as e:
+            self.bad(node, "format string does not parse: %s" % e)
+        for lit, name, spec, conv in fields:
+            if lit:
+                parts.append(self.strlit(lit, node))
+            if name is None:
+                continue
+            if "{" in (spec or ""):
+                self.bad(node, "nested format spec")
+            m = re.fullmatch(r"([A-Za-z_]\w*|\d*)((?:\.[A-Za-z_]\w*)*)", name)
+            if not m:
+                self.bad(node, "format field name %r" % name)
+            head, attrs = m.group(1), m.group(2)
+            if head == "" or head.isdigit():
+                i = auto if head == "" else int(head)
+                auto += head == ""
+                manual = manual or head != ""
+                if auto and manual:
+                    self.bad(node, "format string mixing automatic and manual field numbering")
+                if i >= len(node.args):
+                    self.bad(node, "format field %r without an argument" % name)
+                base = node.args[i]
+            else:
+                if head not in kw:
+                    self.bad(node, "format field %r without a keyword argument" % name)
+                base = kw[head]
+            e = copy.deepcopy(base)
+            for a in [x for x in attrs.split(".") if x]:
+                e = ast.Attribute(value=e, attr=a, ctx=ast.Load())
+            ast.copy_location(e, node)
+            ast.fix_missing_locations(e)
+            parts.append(self.fmt_value(self.expr(e, env), spec or "", None if conv is None else conv, node))
+        return self.concat(parts)
+
     # ---- statements
 
     def ret(self, v, node):
+        if self.plain_ret:
+            return self.value(v, node)
         if v.kind == "ctor":
             s = v.lean
         elif v.kind in self.spec.ret_wrap:
             s = self.spec.ret_wrap[v.kind].format(self.value(v, node))
+        elif v.kind == "lit" and self.spec.ret.strip() == "Nat" and not self.spec.ret_wrap:
+            s = self.num(v, "nat", node)  # a constant kernel declared natural (negative / non-integer literals are refused)
         elif v.kind == "lit" and ("rat" in self.spec.ret_wrap or "alpha" in self.spec.ret_wrap):
             k = "alpha" if self.alpha else "rat"
             s = self.spec.ret_wrap[k].format(self.num(v, k, node))
         else:
             s = self.value(v, node)
+        if self.plain_ret:
+            return s
+        if self.spec.ret_mode == "except":
+            return "Except.ok %s" % self.atom(s)
         return "some %s" % s if self.spec.ret_mode == "option" else s
 
     def output_val(self, text, env):
@@ -1107,7 +1364,10 @@ class _Tr:
         if self.outputs is None:
             raise Refuse("a path through `%s` ends without returning a value" % self.spec.qualname)
         vals = [self.output_val(t, env) for t in self.outputs]
-        v = vals[0] if len(vals) == 1 else Val(None, "tuple", items=vals)
+        if not vals:
+            v = Val("()", "unit")  # a function that works by raising or not (`outputs=[]`)
+        else:
+            v = vals[0] if len(vals) == 1 else Val(None, "tuple", items=vals)
         return "  " * ind + self.ret(v, None)
 
     def stmts(self, body, env, ind):
@@ -1139,14 +1399,27 @@ class _Tr:
             t = self.truth(self.expr(s.test, env), s)
             if t.const is True:
                 return self.stmts(rest, env, ind)
+            if self.spec.ret_mode == "except" and not self.plain_ret:
+                err = pad + "Except.error %s" % self.atom(self.raise_term(s))
+                if t.const is False:
+                    return err
+                return "%sif %s then\n%s\n%selse\n  %s" % (pad, self.as_prop(t, s), self.stmts(rest, env.child(), ind + 1), pad, err)
             self.bad(s, "assert whose test is not constant-true on this kernel's domain")
         if isinstance(s, ast.Return):
+            if self.in_for:
+                self.bad(s, "`return` inside a `for` loop")
             if s.value is None:
                 if self.outputs is not None:
                     return self.fall_off(env, ind)
                 self.bad(s, "bare return")
             return pad + self.ret(self.expr(s.value, env), s)
         if isinstance(s, ast.Raise):
+            if self.plain_ret:
+                self.bad(s, "`raise` inside a loop that accumulates values")
+            if self.spec.ret_mode == "except":
+                return pad + "Except.error %s" % self.atom(self.raise_term(s))
+            if self.in_for:
+                self.bad(s, "`raise` inside a `for` loop of a kernel whose errors are not distinguished")
             if self.spec.ret_mode != "option":
                 self.bad(s, "`raise` in a kernel without an error alternative")
             return pad + "none"
@@ -1172,7 +1445,88 @@ class _Tr:
             return "%sif %s then\n%s\n%selse\n%s" % (pad, self.as_prop(t, s), a, pad, b)
         if isinstance(s, ast.While):
             return self.while_(s, rest, env, ind)
+        if isinstance(s, ast.For):
+            return self.for_(s, rest, env, ind)
         self.bad(s, "statement of type %s is not in the whitelist" % type(s).__name__)
+
+    def raise_term(self, s):
+        """Lean error term of a `raise` / failing `assert`, chosen by the text of the statement (`raises` of the spec)"""
+        text = ast.unparse(s)
+        hits = [(k, t) for k, t in self.spec.raises if k in text]
+        if len(hits) != 1:
+            self.bad(s, "%d entries of this kernel's `raises` match the statement (need exactly 1)" % len(hits))
+        return hits[0][1]
+
+    def for_(self, s, rest, env, ind):
+        """`for x in <mapped list>: body`.
+        (a) ret_mode 'except', the body assigns no name that exists outside: the model's `for_each` combinator
+            (`forE l (fun x => body)`; the body raises or falls off);
+        (b) otherwise: a left fold over the list whose state is the tuple of the outer names the body assigns
+            (`for c in l: if t(c): n += 1`); no return/raise in the body."""
+        pad = "  " * ind
+        if s.orelse:
+            self.bad(s, "for/else")
+        it = self.expr(s.iter, env)
+        if not it.kind.startswith("list:"):
+            self.bad(s, "`for` over a %s value (only mapped lists)" % it.kind)
+        benv, var = self.bind_elem(s.target, it.kind[5:], env, s)
+        assigned = set()
+        for b in s.body:
+            assigned |= _assigned_names(b)
+        assigned.discard(s.target.id)
+        state = sorted(n for n in assigned if n in env.names)
+        if state and any(isinstance(sub, (ast.For, ast.While)) for b in s.body for sub in ast.walk(b)):
+            self.bad(s, "nested loop inside an accumulating `for` loop")
+        after = env.child()
+        for n in assigned | {s.target.id}:
+            if n not in state:
+                after.names.pop(n, None)  # loop-local names are not visible after the loop
+                after.aliases.pop(n, None)
+        saved = (self.outputs, self.in_for, self.plain_ret)
+        try:
+            self.in_for += 1
+            if not state:
+                if self.spec.ret_mode != "except" or not self.spec.for_each or self.plain_ret:
+                    self.bad(s, "`for` loop that assigns no outer name in a kernel without a `for_each` combinator")
+                self.outputs = []
+                body = self.stmts(list(s.body), benv, ind + 2)
+                term = "%s %s (fun %s =>\n%s)" % (self.spec.for_each, self.atom(it.lean), var, body)
+            else:
+                kinds = {}
+                for n in state:
+                    v = env.names[n]
+                    v = Val(*v) if isinstance(v, tuple) else v
+                    if v.kind not in LEAN_TYPE or v.lean is None:
+                        self.bad(s, "loop state `%s` of kind %s (bind it to a typed local/parameter before the loop)" % (n, v.kind))
+                    kinds[n] = v
+                    benv.names[n] = Val(mangle(n), v.kind)
+                self.outputs = list(state)
+                self.plain_ret += 1
+                body = self.stmts(list(s.body), benv, ind + 2)
+        finally:
+            self.outputs, self.in_for, self.plain_ret = saved
+        if not state:
+            if not rest and self.outputs == []:
+                return pad + term  # the loop is the last statement of a function / loop body that returns nothing
+            return "%smatch %s with\n%s| .error e => .error e\n%s| .ok _ =>\n%s" % (
+                pad, term, pad, pad, self.stmts(rest, after, ind + 1))
+        sv = [mangle(n) for n in state]
+        pat = sv[0] if len(sv) == 1 else "(" + ", ".join(sv) + ")"
+        init = kinds[state[0]].lean if len(sv) == 1 else "(" + ", ".join(kinds[n].lean for n in state) + ")"
+        # the body's value must have the state's kinds (e.g. a natural counter must stay natural)
+        fold = "(List.foldl (fun %s %s =>\n%s) %s %s)" % (pat, var, body, init, self.atom(it.lean))
+        out = ""
+        if len(sv) == 1:
+            out += "%slet %s := %s;\n" % (pad, sv[0], fold)
+            after.names[state[0]] = Val(sv[0], kinds[state[0]].kind)
+        else:
+            tmp = self.fresh(env, "fold")
+            out += "%slet %s := %s;\n" % (pad, tmp, fold)
+            for i, n in enumerate(state):
+                proj = ".2" * i + (".1" if i < len(state) - 1 else "")
+                out += "%slet %s := %s%s;\n" % (pad, sv[i], tmp, proj)
+                after.names[n] = Val(sv[i], kinds[n].kind)
+        return out + self.stmts(rest, after, ind)
 
     def only_noops(self, body, env):
         for s in body:
@@ -1377,9 +1731,15 @@ class _Tr:
         # a, b = e1, e2
         if len(s.targets) == 1 and isinstance(s.targets[0], ast.Tuple):
             tg = s.targets[0].elts
-            if not (isinstance(s.value, ast.Tuple) and len(s.value.elts) == len(tg) and all(isinstance(t, ast.Name) for t in tg)):
-                self.bad(s, "tuple assignment other than `a, b = e1, e2` to names")
-            vals = [self.expr(e, env) for e in s.value.elts]  # all right-hand sides first, as Python does
+            if not all(isinstance(t, ast.Name) for t in tg):
+                self.bad(s, "tuple assignment to other than names")
+            if isinstance(s.value, ast.Tuple) and len(s.value.elts) == len(tg):
+                vals = [self.expr(e, env) for e in s.value.elts]  # all right-hand sides first, as Python does
+            else:
+                tv = self.expr(s.value, env)  # e.g. `a, b = divmod(x, y)`
+                if tv.kind != "tuple" or tv.items is None or len(tv.items) != len(tg) or tv.lean is not None:
+                    self.bad(s, "tuple assignment other than `a, b = e1, e2` / `a, b = divmod(x, y)` to names")
+                vals = list(tv.items)
             env = env.child()
             out = ""
             tmp = []
@@ -1428,6 +1788,9 @@ class _Tr:
         env = env.child()
         if v.kind == "lit" and self.alpha and v.isfloat:
             v = Val(self.num(v, "alpha", s), "alpha")  # a named float constant of a Scalar kernel is a `let`
+        if len(s.targets) == 1 and s.targets[0].id in self.spec.local_kinds and v.kind in NUM:
+            lk = self.spec.local_kinds[s.targets[0].id]
+            v = Val(self.num(v, lk, s), lk)  # declared kind of this local
         if v.kind in ("vec", "lit", "list0", "msg") or v.const is not None:
             for t in s.targets:  # symbolic: no Lean binding needed
                 env.names[t.id] = v
@@ -1485,7 +1848,7 @@ def translate(spec, repo):
             if sel.get("guard") and spec.ret_mode != "option":
                 raise Refuse("internal: a guarded slice needs ret_mode='option'")
         elif "value_of" in sel:
-            body = select_value_of(fn, sel["value_of"], sel.get("arg_of"))
+            body = select_value_of(fn, sel["value_of"], sel.get("arg_of"), sel.get("arg_index", 0))
         elif "range" in sel:
             body = select_range(fn, sel["range"][0], sel["range"][1])
             if spec.outputs is None:
